@@ -205,6 +205,9 @@ func DischargeAll(obls []*Obligation, workDir string, timeoutS, seed, parallel i
 			}
 		}
 	}
+	if os.Getenv("VERIF_FAST") != "" {
+		return // development: no retries, failures come back quickly
+	}
 	for round := 1; round <= 2; round++ {
 		u := undecided()
 		if len(u) == 0 || len(u) > 24 {
